@@ -199,6 +199,9 @@ def check_watchdog(chunk):
                 viols.append(Violation(PROP, f"watchdog|{flavour}|dropped-although-answered", f"latencies {pattern} (all < R={R}): link dropped at t={res['drop']}", rep))
             elif silence < 2 * R - 1e-6 or silence > 3 * R + 0.2 + 1e-6:
                 viols.append(Violation(PROP, f"watchdog|{flavour}|drop-time", f"latencies {pattern}: silent since t={last_heard}, dropped at t={res['drop']} ({silence / R:.2f} R of silence, expected 2..3 R)", rep))
+            elif all(lat is None for lat in pattern) and silence > 2.1 * R + 1e-6:
+                # a link that never answers at all: 'dropped within about twice the timeout' (no phase slack to add)
+                viols.append(Violation(PROP, f"watchdog|{flavour}|drop-time|silent-from-start", f"link silent from the start dropped only at t={res['drop']} ({silence / R:.2f} R), expected about 2 R", rep))
             if not res["redial"]:
                 viols.append(Violation(PROP, f"watchdog|{flavour}|no-redial", f"latencies {pattern}: link dropped at t={res['drop']} but no new connect attempt follows", rep))
             elif res["redial"][0] - res["drop"] > 1e-6:
@@ -223,7 +226,7 @@ def run(tier):
 
             raise HarnessError(f"{v.signature} did not reproduce")
     R = 10.0
-    lats = [0.0, R / 2, 0.95 * R, None]
+    lats = [0.0, 0.15, R / 2, 0.95 * R, None]  # 0.15 s: an answer that lands between a probe and the timer's 0.1 s margin
     patterns = [("async", p) for p in itertools.product(lats, repeat=4)]
     v2, s2, m2 = e5.pmap(check_watchdog, patterns)
     report.add_all(v2)
@@ -243,8 +246,8 @@ def run(tier):
         "error / orderly close, data arrives, user sends, user disconnect, stop) on the real AsyncSerialGateway/"
         "AsyncTCPGateway on a virtual loop, at most the stated number of deviations from the default answers (connect ok, "
         "next timer); after every event the callback/attempt/write counters and retry intervals are judged, after stop() "
-        "all remaining timers are fired and silence is required; (b) watchdog: all 4^4 probe-answer latency patterns "
-        "{0, R/2, 0.95R, never} on the virtual clock; threaded kinds: see coverage.threaded"
+        "all remaining timers are fired and silence is required; (b) watchdog: all 5^4 probe-answer latency patterns "
+        "{0, 0.15 s, R/2, 0.95R, never} on the virtual clock (a link silent from the start must be dropped within 2.1 R); threaded kinds: see coverage.threaded"
     )
     cov["watchdog"] = dict(s2)
     cov["threaded"] = part_threaded
